@@ -166,9 +166,12 @@ func c11Scenarios(tier string) []*world.Scenario {
 	for _, kind := range []string{"mget", "del", "mset"} {
 		for nf := 2; nf <= 3; nf++ {
 			for _, sub := range subsets([]string{AddrA, AddrB, AddrC}[:nf]) {
-				for _, ei := range errs {
+				for k, ei := range errs {
 					b := -1
 					if nf == 3 && tier != "thorough" {
+						if k >= 3 {
+							continue // quick tier: three error texts on three-fragment requests
+						}
 						b = 3
 					}
 					out = append(out, c11Scenario(kind, nf, sub, ei, b))
@@ -267,6 +270,45 @@ func c11Scenarios(tier string) []*world.Scenario {
 				}
 				out = append(out, sc)
 			}
+		}
+	}
+	// the slow-log is enabled (threshold 1 ms) and the error reply takes 5 ms: error lines that consist of a code only, with
+	// and without trailing text, long ones - the bookkeeping about slow or failed requests must not change the reply
+	c11Errors2 := []string{"-E\r\n", "-ERR\r\n", "-MYERR\r\n", "-\r\n", "- \r\n", "-ERR \r\n", c11Errors[1], c11Errors[18]}
+	for _, e := range c11Errors2 {
+		for _, kind := range []string{"get", "mget", "del"} {
+			e := e
+			nf := 1
+			if kind != "get" {
+				nf = 2
+			}
+			sc := c11Scenario(kind, nf, []string{AddrA}, 0, 1)
+			sc.SlowlogMs = 1
+			sc.Ticks = []time.Duration{5 * time.Millisecond}
+			sc.TickGate = func(w *world.World) bool { return len(w.DataCmds(AddrA)) >= 1 }
+			kd := kind
+			sc.Reply = func(w *world.World, bc *world.BConn, args [][]byte) ([]byte, int) {
+				if bc.Addr == AddrA && world.Lower(args[0]) == kd && w.Ticks == 0 {
+					return []byte(e), 1
+				}
+				return nil, 0
+			}
+			if kind == "get" {
+				sc.Clients[0].Expect[0] = []byte(e)
+			}
+			sc.Family = "error-with-slowlog"
+			sc.Name = fmt.Sprintf("C11/%s/slowlog-1ms/error-%q/d1", kind, strings.TrimSpace(e))
+			inner := sc.Check
+			sc.Check = func(w *world.World) []world.Violation {
+				vs := inner(w)
+				for i := range vs {
+					if kd == "get" && vs[i].Sig != kd+"-fragment-error-stalls" {
+						vs[i].Sig = "single-key-error-altered"
+					}
+				}
+				return vs
+			}
+			out = append(out, sc)
 		}
 	}
 	// a request timeout is configured: one fragment of a split request is answered with an error (the request fails at
